@@ -86,7 +86,7 @@ theorem snapshot_consistent_inv {b : Bucket} (h : Inv b) {c : ScanCfg} {id : Nat
       ∀ o ∈ offs, ∃ e rest, readCommitted recs limit o = some ((e, o) :: rest) ∧
         c.sel (entryOf e o) = true := by
   obtain ⟨rfl, hat⟩ := snap_offAt h hs
-  refine ⟨_, _, segRecs_live b, ?_, ?_, ?_⟩
+  refine ⟨_, _, segRecs_live_ss b, ?_, ?_, ?_⟩
   · intro o ho
     obtain ⟨⟨p, hp, h1, h2, _⟩, _⟩ := (hat o ho).read h.live_contig
     exact ⟨p, hp, h1, h2⟩
@@ -105,9 +105,9 @@ theorem snapshot_stable_inv {b : Bucket} (h : Inv b) {c : ScanCfg} {id : Nat} {o
       (∀ p ∈ recs', p.off ∈ offs → p ∈ recs ∧ p.off + p.size ≤ limit) ∧
       ∀ o ∈ offs, readCommitted recs' limit' o = readCommitted recs limit o := by
   obtain ⟨rfl, hat⟩ := snap_offAt h hs
-  rw [segRecs_live] at hseg
+  rw [segRecs_live_ss] at hseg
   injection hseg with hseg; injection hseg with h1 h2; subst h1 h2
-  obtain ⟨recs', limit', hs', hpre, hle⟩ := segExt_rawRun ops b h hok _ _ _ (segRecs_live b)
+  obtain ⟨recs', limit', hs', hpre, hle⟩ := segExt_rawRun ops b h hok _ _ _ (segRecs_live_ss b)
   have hc' := segRecs_contig (inv_rawRun ops b h hok) hs'
   refine ⟨recs', limit', hs', hpre, hle, ?_, ?_, ?_⟩
   · intro o ho
